@@ -73,8 +73,13 @@ def exec_case(check, case, timeout):
         else:
             raise
     finally:
-        signal.setitimer(signal.ITIMER_REAL, 0)
-        signal.signal(signal.SIGALRM, old)
+        for _ in range(3):          # the alarm may fire right here: disarm it without letting it escape
+            try:
+                signal.setitimer(signal.ITIMER_REAL, 0)
+                signal.signal(signal.SIGALRM, old)
+                break
+            except CaseTimeout:
+                res = {"outcome": "skip", "reason": "wall-timeout"}
     res["wall"] = time.time() - t0
     if _common.TIMEOUT_FIRED:
         res["timing"] = True        # an inner wall-clock guard fired: the outcome is load dependent
